@@ -7,6 +7,7 @@ import (
 	"fmt"
 	"strings"
 
+	"github.com/decred/dcrd/dcrec/secp256k1/v4"
 	crypto "github.com/libp2p/go-libp2p/core/crypto"
 	mbase "github.com/multiformats/go-multibase"
 	"github.com/multiformats/go-multicodec"
@@ -89,7 +90,7 @@ func (d DID) PubKey() (crypto.PubKey, error) {
 		P256:      ecdsaPubKeyUnmarshaler(elliptic.P256()),
 		P384:      ecdsaPubKeyUnmarshaler(elliptic.P384()),
 		P521:      ecdsaPubKeyUnmarshaler(elliptic.P521()),
-		Secp256k1: crypto.UnmarshalSecp256k1PublicKey,
+		Secp256k1: secp256k1PubKeyUnmarshaller,
 		RSA:       rsaPubKeyUnmarshaller,
 	}[d.code]
 	if !ok {
@@ -109,6 +110,9 @@ func (d DID) String() string {
 func ecdsaPubKeyUnmarshaler(curve elliptic.Curve) crypto.PubKeyUnmarshaller {
 	return func(data []byte) (crypto.PubKey, error) {
 		x, y := elliptic.UnmarshalCompressed(curve, data)
+		if x == nil {
+			return nil, fmt.Errorf("invalid compressed %s public key", curve.Params().Name)
+		}
 
 		ecdsaPublicKey := &ecdsa.PublicKey{
 			Curve: curve,
@@ -123,6 +127,15 @@ func ecdsaPubKeyUnmarshaler(curve elliptic.Curve) crypto.PubKeyUnmarshaller {
 
 		return crypto.UnmarshalECDSAPublicKey(pkix)
 	}
+}
+
+// secp256k1PubKeyUnmarshaller only accepts the compressed form that did:key prescribes (and that
+// FromPubKey produces), so that a key has a single identifier.
+func secp256k1PubKeyUnmarshaller(data []byte) (crypto.PubKey, error) {
+	if len(data) != secp256k1.PubKeyBytesLenCompressed {
+		return nil, fmt.Errorf("invalid secp256k1 public key: expected the %d-byte compressed form", secp256k1.PubKeyBytesLenCompressed)
+	}
+	return crypto.UnmarshalSecp256k1PublicKey(data)
 }
 
 func rsaPubKeyUnmarshaller(data []byte) (crypto.PubKey, error) {
